@@ -6,7 +6,18 @@ open SigModel.Proto SigModel.Hub SigModel.Driver.HubCommon
 
 abbrev St := HubCommon.St
 
+/-- The member sets the server holds (`rm:` entries of its tables) against the member sets the statement
+gives for the history so far -- the model's rooms: each session is a member of the room its latest successful
+join targeted unless it has left, was removed by the backend, said bye or expired since. -/
+def judgeMembers (st : St) (impl : ImplOut) : List String :=
+  if !impl.hasDigest then [] else
+  let want := sortStrings ((digestTokens st.hub st.seen).filter (hasPrefix "rm:"))
+  let got := sortStrings (((digestFind impl.digest "rm")).map (joinWith ":"))
+  if want == got then [] else
+    let d := (got.filter (!want.contains ·)).map ("+" ++ ·) ++ (want.filter (!got.contains ·)).map ("-" ++ ·)
+    [s!"member-set-differs:{joinWith "," (d.take 4)}"]
+
 def step (st : St) (op impl : List String) : St × String × String :=
-  stepWith (fun st _ _ impl => verdictOf ((judgeTables impl).filter (fun e => !(hasPrefix "residue" e) && !(hasPrefix "listener" e)) ++ judgeViews st.views impl)) st op impl
+  stepWith (fun st _ _ impl => verdictOf ((judgeTables impl).filter (fun e => !(hasPrefix "residue" e) && !(hasPrefix "listener" e)) ++ judgeViews st.views impl ++ judgeMembers st impl)) st op impl
 
 end SigModel.Driver.C04
